@@ -1172,8 +1172,13 @@ class Assembler:
         as_text = ab['as'].replace('&mut verif_journal', '&mut *verif_journal') if spec.get('journal_param') else ab['as']
         ed.replace(s.t[ka][1], s.t[kb][2], as_text)
         what = ('initializer of `let %s`' % ab['let']) if 'let' in ab else ('expression `%s`' % re.sub(r'\s+', ' ', orig)[:160])
+        pinned = re.sub(r'\s+', ' ', orig)
+        if ab.get('pin') == 'callee' and 'whole_call' in ab:
+            # the argument of the replaced call (a closure) is LIFTED and verified from its real text elsewhere in the same unit,
+            # so only the callee is pinned: an edit inside the closure is decided by the lifted function's contract
+            pinned = ab['whole_call']
         self.assumed.append({'function': '%s :: %s abstracted as %s' % (fnname, what, ab['as'].split('(')[0].strip()),
-                             'sha256': hashlib.sha256(re.sub(r'\s+', ' ', orig).encode()).hexdigest(), 'proved_in': None})
+                             'sha256': hashlib.sha256(pinned.encode()).hexdigest(), 'proved_in': None})
         self.fired.add('15:abstract-expression')
 
     def find_nested(self, s, fp, name):
